@@ -103,4 +103,4 @@ def gen_lcase(rng):
         else:
             op = (k, gen_lpred(rng, items), fresh)
         ops.append(op)
-    return {'items': items, 'ops': ops, 'mode': rng.choice(['custom', 'doc'])}
+    return {'items': items, 'ops': ops, 'mode': rng.choice(['custom', 'doc', 'box'])}
